@@ -605,6 +605,7 @@ type Contract struct {
 	Params   []string          // parameter names for extern / interface contracts
 	Lets     []Clause          // let name = expr (evaluated at entry)
 	Extern   bool
+	Decreases *Clause          // termination measure (integer expression over the parameters)
 }
 
 type PureDef struct {
@@ -613,6 +614,9 @@ type PureDef struct {
 	Result string
 	Body   *SNode // nil: uninterpreted
 	File   string
+	// Recursive (rpred): an uninterpreted predicate over immutable structures whose
+	// one-level unfolding in the current state is asserted wherever it is mentioned
+	Recursive bool
 }
 
 type GhostDef struct {
@@ -663,6 +667,7 @@ type SpecFile struct {
 	LockInvs  []*LockInv
 	Lemmas    []*Lemma
 	Chans     []map[string]string
+	Dispatch  [][2]string
 }
 
 // ParseSpecText parses the //@ lines of a contract file (or all lines of an
@@ -848,9 +853,29 @@ func ParseSpecText(path string, text string, raw bool) (*SpecFile, error) {
 				v = "true"
 			}
 			cur.Opts[k] = v
-		case "pure", "pred":
+		case "decreases":
+			if cur == nil {
+				return nil, fmt.Errorf("%s:%d: decreases outside of a contract", path, l.no)
+			}
+			c, err := mkClause(rest, l.no)
+			if err != nil {
+				return nil, err
+			}
+			cur.Decreases = &c
+		case "dispatch":
+			// dispatch Iface ConcreteType : calls through Iface are resolved to ConcreteType, with
+			// the obligation that the receiver really has that dynamic type
+			fs := strings.Fields(rest)
+			if len(fs) != 2 {
+				return nil, fmt.Errorf("%s:%d: bad dispatch line", path, l.no)
+			}
+			sf.Dispatch = append(sf.Dispatch, [2]string{fs[0], fs[1]})
+		case "pure", "pred", "rpred":
 			// pure name(p T, q U) R [= expr]
-			pd, err := parsePureDecl(rest, word == "pred")
+			pd, err := parsePureDecl(rest, word != "pure")
+			if err == nil && word == "rpred" {
+				pd.Recursive = true
+			}
 			if err != nil {
 				return nil, fmt.Errorf("%s:%d: %v", path, l.no, err)
 			}
